@@ -16,7 +16,7 @@ import c09_impl as I
 def _script(owner, key, args, kwargs):
     with owner.lock:
         owner.log.append([owner.idx, key, I.canon_args(key, args, kwargs) if owner.idx >= 0
-                          else [I.canon_scalar(x) for x in args]])
+                          else [I.canon_scalar(x, as_int=(key == "set_volume")) for x in args]])
     owner.ncalls += 1
     resp = owner.answers.get(key, I.DEFAULT)
     if resp[0] == "raise":
